@@ -27,6 +27,10 @@ import (
 //   mom        a momentum whose content is a chosen prefix of the pooled blocks of chosen accounts
 //   rollback   chain.RollbackTo 1-3 momentums below the frontier (or to the frontier itself)
 //   restart    close + reopen on the same directory
+//   reorg      a reorganisation delivered by a peer: protocol.ChainBridge.InsertChain of a strictly longer side chain built on
+//              a second real node from a fork point 1-3 momentums down (re-used and fresh blocks; the same sends in the same /
+//              another order / left out), with unconfirmed blocks in the pool of the node under test; for the model:
+//              rollback to the fork point + the side chain's blocks (put) and momentums (mom)
 // After EVERY operation the stream prints, read from the REAL stores: confirmed and pool-frontier balances, received
 // markers and pending sets per account, the stored inbox counters (mailbox size, account front index, live entries) of the
 // contracts and the pool-level front index, and the pool contents per account. The Lean driver replays the operations
@@ -36,6 +40,7 @@ import (
 //   C04  received marker of (account, send) is set  <=>  the account's CONFIRMED chain holds a receive of that send
 //   C04  stored inbox: size = number of confirmed sends to the contract, entries = their hashes in confirmation order,
 //        front index = number of confirmed receives of the contract, which answer the entries in order
+//        and the unconfirmed (pooled) receives of the contract continue that order on the CURRENT chain
 //   C01  at the confirmed state and at the pool state: ZNN / QSR supply = sum of all balances + amounts in flight
 // ---------------------------------------------------------------------------------------------------
 
